@@ -88,8 +88,9 @@ def one(case):
         f = features(case)
         f["route"] = route(case, K.id_strategies(case["event"])[0])
         f["frag1"] = bool(r["in_fragment"])
-        f["fragment"] = ("1" if r["in_fragment"] else "2" if r["in_fragment2_strict"] else "2R" if r["in_fragment2"] else
-                         "single-world-outside" if r["one_world"] else "multi-world")
+        f["fragment"] = ("1" if r["in_fragment"] else "2" if r["in_fragment2_strict"] else "2R" if r["in_fragment2r"] else
+                         "3" if r["in_fragment3"] else "single-world-outside" if r["one_world"] else "multi-world-outside")
+        f["fragment3_flag"] = bool(r["in_fragment3"])
         key = None
         if r["fail"]:
             key = P._coarse_key(case, dict(r, in_fragment=False, in_fragment2=False))
